@@ -277,14 +277,15 @@ class CFG:
         allset = set(ids)
         dom = {i: set(allset) for i in ids}
         dom[start] = {start}
+        live = self.reachable_from(self.entry) if forward else self.reaching_to(self.exit)
         changed = True
         while changed:
             changed = False
             for n in self.nodes:
-                if n.id == start:
+                if n.id == start or n.id not in live:
                     continue
                 edges = n.pred if forward else n.succ
-                srcs = [p for p, lab in edges if lab != "exc" and (forward or p != self.raise_exit)]
+                srcs = [p for p, lab in edges if lab != "exc" and p in live]
                 if not srcs:
                     new = {n.id}
                 else:
@@ -386,6 +387,17 @@ class CFG:
         """[(atom expr, polarity, branch node id)] that must hold when control reaches node_id."""
         fs = self.facts()[node_id]
         return [(self.atoms[i][0], pol, self.atoms[i][1]) for i, pol in fs if i >= 0]
+
+    def controlling(self, node_id: int) -> List[Tuple[int, bool]]:
+        """[(test node id, outcome)] : branch outcomes that every path to node_id has taken (control dependence + guards)."""
+        out = []
+        for i, pol in self.facts()[node_id]:
+            if i < 0:
+                continue
+            expr, branch = self.atoms[i]
+            if self.nodes[branch].kind == "test" and self.nodes[branch].ast is expr:
+                out.append((branch, pol))
+        return out
 
     def completed_loops_at(self, node_id: int) -> List[int]:
         """Heads of for-loops that certainly ran to completion (no break) before node_id."""
